@@ -2,6 +2,7 @@ package c14
 
 import (
 	"os"
+	"runtime/debug"
 	"strconv"
 	"runtime/pprof"
 	"encoding/json"
@@ -118,31 +119,36 @@ var (
 	tax4   = []string{"0", "0.02", "0.5", "1"}
 	tax5   = []string{"0", "0.02", "0.5", "1", "0.333333333333333333"}
 	poolsQ = []string{"0", "1", "2", "3", "99", "1000001", "1000000000000000007"}
-	poolsT = []string{"0", "1", "2", "3", "99", "1000001", "1000000000000000007", "7", "100", "101", "1000000", "1000000000000000000", "3000000000000000000"}
+	poolsT = []string{"0", "1", "2", "3", "99", "100", "1000001", "1000000000000000000", "1000000000000000007"}
+	poolsX = []string{"0", "1", "2", "3", "7", "99", "100", "101", "1000000", "1000001", "1000000000000000000", "1000000000000000007", "3000000000000000000"}
 	bothOn = GroupCfg{N: 2, Active: []bool{true, true}, HasDE: []bool{true, true}}
 )
 
 func spaces(quick bool) []space {
 	on3 := [3]bool{true, true, true}
+	one := "one group of 2 valid members"
 	if quick {
 		return []space{
-			{Name: "oracle", Pools: poolsQ, Pools2: []string{"", "5"}, OPct: pct6, TPct: []uint64{50}, Tax: tax4, Mint: []bool{false, true},
-				Powers: powerVectors([]int64{1, 3, 10}), Prop: []int{0, 1, 2}, OAct: allFlags3(), Groups: []GroupCfg{bothOn}, GroupN: "one group of 2 valid members"},
-			{Name: "tss", Pools: poolsQ, Pools2: []string{"", "5"}, OPct: []uint64{0, 33, 100}, TPct: pct6, Tax: tax4, Mint: []bool{false, true},
+			{Name: "oracle", Pools: poolsQ, Pools2: []string{""}, OPct: pct6, TPct: []uint64{50}, Tax: tax4, Mint: []bool{false},
+				Powers: powerVectors([]int64{1, 3, 10}), Prop: []int{0, 1, 2}, OAct: allFlags3(), Groups: []GroupCfg{bothOn}, GroupN: one},
+			{Name: "oracle-multidenom-mint", Pools: []string{"3", "1000001"}, Pools2: []string{"5"}, OPct: []uint64{1, 33, 100}, TPct: []uint64{50}, Tax: []string{"0.02", "0.5"}, Mint: []bool{false, true},
+				Powers: powerVectors([]int64{1, 3, 10}), Prop: []int{0, 1, 2}, OAct: allFlags3(), Groups: []GroupCfg{bothOn}, GroupN: one},
+			{Name: "tss", Pools: []string{"0", "1", "3", "99", "1000001", "1000000000000000007"}, Pools2: []string{"", "5"}, OPct: []uint64{0, 33}, TPct: pct6, Tax: tax4, Mint: []bool{false},
 				Powers: [][3]int64{{1, 2, 10}}, Prop: []int{0}, OAct: [][3]bool{on3}, Groups: groupConfigs(0, 1, 2, 3), GroupN: "no group; 1,2,3 members x all (active,nonce) flags"},
-			{Name: "cross", Pools: []string{"3", "1000001"}, Pools2: []string{"", "5"}, OPct: []uint64{0, 33, 100}, TPct: []uint64{0, 33, 100}, Tax: []string{"0.02", "1"}, Mint: []bool{false},
-				Powers: [][3]int64{{1, 1, 1}, {1, 2, 10}}, Prop: []int{0, 2}, OAct: allFlags3(), Groups: groupConfigs(0, 1, 2), GroupN: "no group; 1,2 members x all flags"},
+			{Name: "cross", Pools: []string{"3", "1000001"}, Pools2: []string{"", "5"}, OPct: []uint64{0, 33, 100}, TPct: []uint64{0, 33, 100}, Tax: []string{"0.02"}, Mint: []bool{false, true},
+				Powers: [][3]int64{{1, 2, 10}}, Prop: []int{0}, OAct: allFlags3(), Groups: groupConfigs(0, 1, 2), GroupN: "no group; 1,2 members x all flags"},
 		}
 	}
+	// thorough: the smaller products first so that an internal time cap can only cut the largest one
 	return []space{
-		{Name: "oracle", Pools: poolsT, Pools2: []string{"", "1", "5", "1000003"}, OPct: pct6, TPct: []uint64{0, 50}, Tax: tax5, Mint: []bool{false, true},
-			Powers: powerVectors([]int64{0, 1, 2, 3, 10}), Prop: []int{0, 1, 2}, OAct: allFlags3(), Groups: []GroupCfg{bothOn}, GroupN: "one group of 2 valid members"},
-		{Name: "oracle-large-power", Pools: poolsT, Pools2: []string{"", "5"}, OPct: pct6, TPct: []uint64{50}, Tax: tax5, Mint: []bool{false},
-			Powers: powerVectors([]int64{1, 333333333, 1000000000000}), Prop: []int{0, 1, 2}, OAct: allFlags3(), Groups: []GroupCfg{bothOn}, GroupN: "one group of 2 valid members"},
-		{Name: "tss", Pools: poolsT, Pools2: []string{"", "1", "5", "1000003"}, OPct: []uint64{0, 1, 33, 99, 100}, TPct: pct6, Tax: tax5, Mint: []bool{false, true},
+		{Name: "tss", Pools: poolsX, Pools2: []string{"", "1", "5", "1000003"}, OPct: []uint64{0, 1, 33, 99, 100}, TPct: pct6, Tax: tax5, Mint: []bool{false, true},
 			Powers: [][3]int64{{1, 2, 10}}, Prop: []int{0}, OAct: [][3]bool{on3}, Groups: groupConfigs(0, 1, 2, 3), GroupN: "no group; 1,2,3 members x all (active,nonce) flags"},
 		{Name: "cross", Pools: []string{"3", "99", "1000001", "1000000000000000007"}, Pools2: []string{"", "5"}, OPct: []uint64{0, 33, 50, 100}, TPct: []uint64{0, 33, 50, 100}, Tax: []string{"0", "0.02", "1"}, Mint: []bool{false, true},
 			Powers: [][3]int64{{1, 1, 1}, {1, 2, 10}, {3, 3, 1}}, Prop: []int{0, 1, 2}, OAct: allFlags3(), Groups: groupConfigs(0, 1, 2), GroupN: "no group; 1,2 members x all flags"},
+		{Name: "oracle-large-power", Pools: poolsX, Pools2: []string{"", "5"}, OPct: pct6, TPct: []uint64{50}, Tax: tax5, Mint: []bool{false},
+			Powers: powerVectors([]int64{1, 333333333, 1000000000000}), Prop: []int{0, 1, 2}, OAct: allFlags3(), Groups: []GroupCfg{bothOn}, GroupN: one},
+		{Name: "oracle", Pools: poolsT, Pools2: []string{"", "5"}, OPct: pct6, TPct: []uint64{50}, Tax: tax5, Mint: []bool{false, true},
+			Powers: powerVectors([]int64{0, 1, 2, 3, 10}), Prop: []int{0, 1, 2}, OAct: allFlags3(), Groups: []GroupCfg{bothOn}, GroupN: one},
 	}
 }
 
@@ -186,6 +192,7 @@ func run(r *engine.Run) {
 		"tss:members-paid", "tss:no-current-group", "tss:no-valid-member", "tss:excluded-member-gets-0", "tss:rounding-remainder-to-community-pool",
 		"tss:member-share-is-zero", "pool:multi-denom", "mint:on", "mint:off", "begin-block-order:mint<oracle<bandtss<distribution",
 	}
+	debug.SetGCPercent(400) // the SDK iterators allocate heavily; memory is not a constraint here
 	nw := engine.DefaultWorkers()
 	workers := make([]*worker, nw)
 	for i := range workers {
@@ -198,7 +205,7 @@ func run(r *engine.Run) {
 		r.Outcomes["begin-block-order:mint<oracle<bandtss<distribution"]++
 		r.Notes = append(r.Notes, "begin blockers in application order: "+strings.Join(order, ","))
 	}
-	deadline := r.Deadline(150*time.Second, 40*time.Minute)
+	deadline := r.Deadline(5*time.Minute, 40*time.Minute)
 	if c, err := strconv.Atoi(os.Getenv("C14_CAP")); err == nil && c > 0 {
 		deadline = time.Now().Add(time.Duration(c) * time.Second)
 	}
